@@ -205,7 +205,8 @@ def run_tlc(module, cfg, *, workers="auto", spec_dir=SPEC_DIR, env=None, timeout
             keep_dir=None):
     """Run TLC on spec_dir/module.tla with spec_dir/cfg.  Returns TLCResult (never raises for violations)."""
     meta = keep_dir or scratch_dir()
-    cmd = ["java", "-XX:+UseParallelGC", f"-Xmx{heap}", *jvm, "-cp", f"{JAR}:{DEPS}", "tlc2.TLC",
+    # java.io.tmpdir: TLC leaves an empty tlc-<n> directory behind per run; keep it inside the scratch directory
+    cmd = ["java", "-XX:+UseParallelGC", f"-Xmx{heap}", f"-Djava.io.tmpdir={meta}", *jvm, "-cp", f"{JAR}:{DEPS}", "tlc2.TLC",
            "-metadir", os.path.join(meta, "states"), "-noGenerateSpecTE", "-workers", str(workers),
            "-config", cfg]
     if coverage:
